@@ -383,3 +383,53 @@ def build_T24(tree):
 TARGETS['T22'] = {'file': 'seg/sop.py', 'build': build_T22}
 TARGETS['T23'] = {'file': 'seg/sop.py', 'build': build_T23}
 TARGETS['T24'] = {'file': 'seg/sop.py', 'build': build_T24}
+
+
+def build_T25(tree):
+    """Per-frame functional groups vs frame content order: the frame loop numbers the visited planes with
+    `enumerate(plane_sort_index, <start>)`, hands `[plane_dim_ind]` (stacks of planes) to `_get_pffg_item`, which puts the
+    segment number in front of it; which plane / source index / segment travel with a frame.  The start value is
+    regenerated as a constant the model's `dimIndexValues` uses; the statements are a literal table the property file pins
+    (`pffg_sites_pinned`, a change detector like `cast_sites_pinned`)."""
+    init = find_func(tree, 'Segmentation.__init__')
+    loop = _one([n for n in ast.walk(init) if isinstance(n, ast.For) and _norm(n.iter).startswith('enumerate(plane_sort_index')],
+                'loop over enumerate(plane_sort_index, ...)')
+    if not (isinstance(loop.iter, ast.Call) and len(loop.iter.args) == 2 and isinstance(loop.iter.args[1], ast.Constant)
+            and isinstance(loop.iter.args[1].value, int) and loop.iter.args[1].value >= 0):
+        raise Unsupported('the plane loop is no longer enumerate(plane_sort_index, <non-negative integer literal>)')
+    start = loop.iter.args[1].value
+    outer = [n for n in ast.walk(init) if isinstance(n, ast.For) and loop in n.body]
+    if len(outer) != 1 or _norm(outer[0].iter) != 'segments_iterable' or _norm(outer[0].target) != 'segment_number':
+        raise Unsupported('the plane loop is no longer nested directly in `for segment_number in segments_iterable`')
+    entries = [f'loop | for {_norm(outer[0].target)} in {_norm(outer[0].iter)}', f'loop | for {_norm(loop.target)} in {_norm(loop.iter)}']
+    div = [n for n in ast.walk(loop) if isinstance(n, ast.Assign) and ast.unparse(n.targets[0]) == 'dimension_index_values']
+    entries += sorted('loop | ' + _norm(n) for n in div if not isinstance(n.value, ast.ListComp))
+    if sum(isinstance(n.value, ast.ListComp) for n in div) != 1:
+        raise Unsupported('expected exactly one list comprehension (slide coordinates) assigned to dimension_index_values')
+    call = _one([n for n in ast.walk(loop) if isinstance(n, ast.Call) and ast.unparse(n.func) == 'self._get_pffg_item'],
+                'call of _get_pffg_item in the frame loop')
+    if call.args:
+        raise Unsupported('_get_pffg_item is no longer called with keyword arguments only')
+    for k in call.keywords:
+        if k.arg in ('segment_number', 'dimension_index_values', 'plane_position', 'source_image_index'):
+            entries.append(f'call | {k.arg}={_norm(k.value)}')
+    item = find_func(tree, 'Segmentation._get_pffg_item')
+    aiv = [n for n in ast.walk(item) if isinstance(n, ast.Assign) and ast.unparse(n.targets[0]) == 'all_index_values']
+    top = _one([n for n in item.body if isinstance(n, ast.If) and any(a in ast.walk(n) for a in aiv)], 'if deciding all_index_values')
+    if len(aiv) != 2 or len(top.body) != 1 or len(top.orelse) != 1:
+        raise Unsupported('all_index_values is no longer assigned once per arm of one if')
+    entries.append(f'_get_pffg_item | {_norm(top.test)} | {_norm(top.body[0])}')
+    entries.append(f'_get_pffg_item | not({_norm(top.test)}) | {_norm(top.orelse[0])}')
+    for n in ast.walk(item):
+        if isinstance(n, ast.Call) and ast.unparse(n.func) == 'DataElement' and n.args and isinstance(n.args[0], ast.Constant) \
+                and n.args[0].value in (0x00209157, 0x0062000B, 0x00081160):
+            entries.append('_get_pffg_item | DataElement | ' + ','.join(_norm(a) for a in n.args))
+    text = ('/-- first value `enumerate(plane_sort_index, ·)` gives the position index of a visited plane -/\n'
+            f'def segDimIndexStart : Nat := {start}\n\n'
+            '/-- the statements that decide which segment / plane / position index / source index a stored frame is recorded\n'
+            '    with (frame loop of `Segmentation.__init__` and `_get_pffg_item`) -/\n'
+            'def segPffgSites : List String :=\n  [' + ',\n   '.join(_lean_str(e) for e in entries) + ']')
+    return text, span_sha([loop.iter, call, top])
+
+
+TARGETS['T25'] = {'file': 'seg/sop.py', 'build': build_T25}
